@@ -9,17 +9,20 @@ import (
 
 // gctx carries the state of one generated expansion case.
 type gctx struct {
-	t       *rapid.T
-	def     bool
-	defEnv  bool            // default scheme is the real env provider
-	unset   map[string]bool // environment variables referenced as unset
-	dag     []Entry // dag[i] may reference dag[j] only for j > i: no accidental cycles
-	extra   []Entry // helpers (nested names), typed leaves, ring members, '$'-named rows
-	ring    []string
-	counter int
-	used    map[string]bool
-	recipe  map[string]string // how to draw another value for a row (histories): scalar int bool float map list
-	order   []string          // rows with a recipe, in creation order
+	t      *rapid.T
+	def    bool
+	defEnv bool            // default scheme is the real env provider
+	unset  map[string]bool // environment variables referenced as unset
+	// per-case pools of variable names drawn from the grammar (set / unset are disjoint)
+	envSetPool, envUnsetPool []string
+	envTaken                 map[string]bool
+	dag                      []Entry // dag[i] may reference dag[j] only for j > i: no accidental cycles
+	extra                    []Entry // helpers (nested names), typed leaves, ring members, '$'-named rows
+	ring                     []string
+	counter                  int
+	used                     map[string]bool
+	recipe                   map[string]string // how to draw another value for a row (histories): scalar int bool float map list
+	order                    []string          // rows with a recipe, in creation order
 }
 
 func (g *gctx) remember(key, recipe string) {
@@ -84,6 +87,26 @@ func oneIn(t *rapid.T, label string, bits int) bool {
 	return true
 }
 
+// envName draws a variable name from the documented grammar -- [A-Za-z_][A-Za-z0-9_]*, length 1 upward
+// ("_", "A", "z", "_1", "a_b", mixed case) -- distinct from every name the case already uses.
+func (g *gctx) envName(label string) string {
+	for {
+		n := string(rapid.SampledFrom(envFirst).Draw(g.t, label+"0")) +
+			rapid.StringOfN(rapid.SampledFrom(envRest), 0, 5, -1).Draw(g.t, label)
+		up := strings.ToUpper(n)
+		if envReserved[n] || strings.HasPrefix(up, "VT_") || strings.HasPrefix(up, "GO") || strings.HasPrefix(up, "VERIF") {
+			n += "_"
+		}
+		if g.envTaken == nil {
+			g.envTaken = map[string]bool{}
+		}
+		if !g.envTaken[n] {
+			g.envTaken[n] = true
+			return n
+		}
+	}
+}
+
 func (g *gctx) defScheme() string {
 	if g.defEnv {
 		return "env"
@@ -92,9 +115,13 @@ func (g *gctx) defScheme() string {
 }
 
 var (
-	envSetPool   = []string{"C12_S0", "C12_S1", "c12_s2", "_C12S3"}
-	envUnsetPool = []string{"C12_U0", "C12_U1", "c12_u2", "_C12U3"}
-	envBadNames  = []string{"1C12", "C12-X", "", "C12 X", "C12.X", "-C12"}
+	// invalid identifiers (RFC: nonempty ASCII alphanumeric or underscore starting with an alphabetic or
+	// underscore character): must be errors
+	envBadNames = []string{"1C12", "C12-X", "", "C12 X", "C12.X", "-C12", "9", "é", "Ünï", "a-", "A.b", "x y", "-", "."}
+	envFirst    = []rune("abcxyzABCHPXYZ_")
+	envRest     = []rune("abxyABXY019_")
+	// names that mean something to the test process itself are never touched
+	envReserved = map[string]bool{"PATH": true, "HOME": true, "TZ": true, "PWD": true, "USER": true, "LANG": true, "TMPDIR": true}
 	// default / inline texts of every YAML type; no '$', '{', '}'
 	defaultPool = []string{"4317", "true", "0.25", "[a, b]", "", "0123", "a b", "null", "\"q\"", "- a", "x:-y", "1e3", "0x1F", "k: v",
 		" 12 ", "#c", "False", "~", "!!str 7", "[]", "a,b"}
@@ -103,7 +130,7 @@ var (
 // envUnsetRef builds a reference to an UNSET environment variable through the real env provider:
 // ${env:NAME:-default}, ${env:NAME}, and with default scheme env ${NAME} / (rarely) ${NAME:-default}.
 func (g *gctx) envUnsetRef(pool []string, forceDefault bool) Seg {
-	name := rapid.SampledFrom(envUnsetPool).Draw(g.t, "unsetname")
+	name := rapid.SampledFrom(g.envUnsetPool).Draw(g.t, "unsetname")
 	if g.unset == nil {
 		g.unset = map[string]bool{}
 	}
@@ -458,6 +485,10 @@ var fieldNames = []string{"s1", "s2", "s3", "i", "b", "f", "m", "ms", "l", "ls",
 func genX(t *rapid.T) XScript {
 	g := &gctx{t: t, def: rapid.Bool().Draw(t, "default"), used: map[string]bool{}}
 	g.defEnv = g.def && rapid.Bool().Draw(t, "defaultenv")
+	for i := 0; i < 3; i++ {
+		g.envSetPool = append(g.envSetPool, g.envName("setvar"))
+		g.envUnsetPool = append(g.envUnsetPool, g.envName("unsetvar"))
+	}
 	// table keys first (values are drawn back to front so that a row only points forward)
 	n := rapid.IntRange(1, 6).Draw(t, "nrows")
 	for i := 0; i < n; i++ {
@@ -467,7 +498,7 @@ func genX(t *rapid.T) XScript {
 			nm = "x"
 		}
 		if sc == "env" {
-			nm = rapid.SampledFrom(envSetPool).Draw(t, "envname") // a variable that is SET to the row's text
+			nm = rapid.SampledFrom(g.envSetPool).Draw(t, "envname") // a variable that is SET to the row's text
 		}
 		k := sc + ":" + nm
 		if g.used[k] {
@@ -537,7 +568,7 @@ func genX(t *rapid.T) XScript {
 		}
 	}
 	s.Table = append(append([]Entry(nil), g.dag...), g.extra...)
-	for _, n := range envUnsetPool {
+	for _, n := range g.envUnsetPool {
 		if g.unset[n] {
 			s.EnvUnset = append(s.EnvUnset, n)
 		}
